@@ -115,7 +115,7 @@ def run(chk):
             w, r = [(w, r) for w, r in rs if not C.run_ok(r)][0]
             found_concrete = True
             rd = chk.replay_dir("flaky-failure:%s:%s" % (name, base))
-            shutil.copytree(dirs[name], os.path.join(rd, "prog"))
+            pd = C.copy_prog(dirs[name], rd)
             open(os.path.join(rd, "replay.txt"), "w").write("run %s of configuration %s failed (timeout=%s panic=%s) while %d other runs of the "
                                                              "same input succeeded\n%s\n" % (w, base, r.get("timeout"), r.get("panic"), len(ok_runs), "\n".join(r.get("errors", []))[:3000]))
             chk.violation("flaky-failure:" + base, "some runs of the same program and configuration fail, others succeed (%s, %s)" % (name, base), rd)
@@ -137,7 +137,7 @@ def run(chk):
                 else:
                     found_concrete = True
                     rd = chk.replay_dir("truncated-not-subset:%s" % name)
-                    shutil.copytree(dirs[name], os.path.join(rd, "prog"))
+                    pd = C.copy_prog(dirs[name], rd)
                     open(os.path.join(rd, "replay.txt"), "w").write("run %s with %s reports %s which is not a non-empty subset (<= %d) of the untruncated set %s\n"
                                                                      % (w, base, sorted(p), k, sorted(full)[:30]))
                     chk.violation("truncated-not-subset", "max-alarms result not drawn from the untruncated set (%s, %s)" % (name, base), rd)
@@ -159,9 +159,10 @@ def run(chk):
         found_concrete = True
         w1, c1 = diff[0]
         what = [f for f in ("pairs", "escapes", "traces", "exit", "nerrors") if c0[f] != c1[f]]
-        key = "nondeterministic:%s:%s" % ("+".join(what), "bt" if "bt=1" in base else "taint")
+        mode = ("od1" if "od=1" in base else "od0") + ("+fs" if "fs=1" in base else "")
+        key = "nondeterministic:%s:%s:%s" % ("+".join(what), "bt" if "bt=1" in base else "taint", mode)
         rd = chk.replay_dir(key + ":" + name)
-        shutil.copytree(dirs[name], os.path.join(rd, "prog"))
+        pd = C.copy_prog(dirs[name], rd)
         with open(os.path.join(rd, "replay.txt"), "w") as f:
             f.write("program %s, configuration %s: %d of %d runs differ from run %s in %s\n" % (name, base, len(diff), len(ok_runs), ok_runs[0][0], what))
             for fld in what:
@@ -170,7 +171,7 @@ def run(chk):
                     f.write("%s only in %s: %s\n%s only in %s: %s\n" % (fld, ok_runs[0][0], sorted(set(a) - set(b))[:20], fld, w1, sorted(set(b) - set(a))[:20]))
                 else:
                     f.write("%s: %s vs %s\n" % (fld, a, b))
-            f.write("\nre-run (several times): %s -dir %s/prog %s '%s,n=10'\n" % (C.TRUN, rd, ("-config %s/prog/config_bt.yaml" % rd) if "bt=1" in base else "", base))
+            f.write("\nre-run (several times): %s -dir %s %s '%s,n=10'\n" % (C.TRUN, pd, ("-config %s/config_bt.yaml" % pd) if "bt=1" in base else "", base))
         chk.violation(key, "repeated runs of the same program and configuration report different %s (%s, %s)" % ("/".join(what), name, base), rd)
 
     chk.proof_broken(failed, found_concrete)
